@@ -681,9 +681,20 @@ def rule_pp_contract(ctx, px):
                     incs = 0
                 else:
                     incs += 1
-        txt = ast.unparse(r.value) if r.value is not None else "None"
-        is_arg = txt == p or (isinstance(r.value, ast.Tuple) and len(r.value.elts) == 2 and ast.unparse(r.value.elts[0]) in line_alias
-                              and ast.unparse(r.value.elts[1]) in term_alias)
+        rv = r.value
+        # a constant of the class / module (`_ELIDED_LINE = ("", "")`) is the value it names
+        if isinstance(rv, ast.Attribute) and isinstance(rv.value, ast.Name) and rv.value.id in ("self", "cls", lc.name, "type(self)"):
+            cdefs = [n_.value for n_ in lc.node.body if isinstance(n_, ast.Assign) and any(isinstance(t_, ast.Name) and t_.id == rv.attr for t_ in n_.targets)]
+            stores = [n_ for n_ in ast.walk(lc.node) if isinstance(n_, ast.Attribute) and n_.attr == rv.attr and isinstance(n_.ctx, ast.Store)]
+            if len(cdefs) == 1 and not stores:
+                rv = cdefs[0]
+        elif isinstance(rv, ast.Name) and rv.id != p:
+            mdefs = [n_.value for n_ in le.module.tree.body if isinstance(n_, ast.Assign) and any(isinstance(t_, ast.Name) and t_.id == rv.id for t_ in n_.targets)]
+            if len(mdefs) == 1 and not any(isinstance(n_, ast.Name) and n_.id == rv.id and isinstance(n_.ctx, ast.Store) for n_ in ast.walk(le.node)):
+                rv = mdefs[0]
+        txt = ast.unparse(rv) if rv is not None else "None"
+        is_arg = txt == p or (isinstance(rv, ast.Tuple) and len(rv.elts) == 2 and ast.unparse(rv.elts[0]) in line_alias
+                              and ast.unparse(rv.elts[1]) in term_alias)
         is_elide = txt in ("('', '')", '("", "")')
         shown = [(ast.unparse(t_)[:40], pl) for t_, pl in path.conds]
         label = f"{le.short} :: path {shown} -> return {txt}"
@@ -755,6 +766,36 @@ def rule_copy(ctx, px):
                "" if ok else f"{len(term) if term else '?'} character(s) are cut without checking that the line ends with {term!r}: "
                "the last line of a file without final newline loses its last character", st.lineno)
     ctx.floor(R, n, 2)
+    # the bytes of a support file travel untranslated: wherever the copy opens the resource or the target itself, it does so in binary
+    # mode or with newline="" (text mode with universal newlines turns CRLF / CR into LF before any processor - and the code above
+    # that keeps "\r\n" - sees it); a whole-file copy is a byte copy (shutil.copy*)
+    k_open = 0
+    sg = px.cls(GEN_MOD, "SupportGenerator")
+    for g in [m_ for nm, m_ in sg.methods.items() if nm.startswith("_copy_header")] + \
+            [h_ for h_ in px.all_funcs if h_.module is f.module and h_.cls is None and h_.outer is None and h_.name.startswith("_") and
+             any(isinstance(c_, ast.Call) and isinstance(c_.func, ast.Name) and c_.func.id == h_.name for m_ in sg.methods.values() for c_ in ast.walk(m_.node))]:
+        for c in ast.walk(g.node):
+            if not isinstance(c, ast.Call):
+                continue
+            fn_txt = ast.unparse(c.func)
+            if fn_txt in ("open", "io.open") or fn_txt.endswith(".open"):
+                k_open += 1
+                mode = c.args[1] if len(c.args) > 1 else next((k_.value for k_ in c.keywords if k_.arg == "mode"), None)
+                mode_s = mode.value if isinstance(mode, ast.Constant) and isinstance(mode.value, str) else ("r" if mode is None else None)
+                nl = next((k_.value for k_ in c.keywords if k_.arg == "newline"), None)
+                ok_o = (mode_s is not None and "b" in mode_s) or (isinstance(nl, ast.Constant) and nl.value == "")
+                ctx.ob(R, g.module.rel, f"{g.short} :: `{ast.unparse(c)[:70]}` does not translate line terminators", ok_o,
+                       "" if ok_o else "text mode with universal newlines: every CRLF / CR of the support file becomes LF on the way (read) or is re-translated by the "
+                       "platform (write) - the terminator is not kept, with or without a processor installed", c.lineno)
+            elif fn_txt in ("shutil.copyfileobj",):
+                pass        # judged by the open() calls that produced its operands
+            elif fn_txt.endswith((".read_text", ".write_text")):
+                k_open += 1
+                nl = next((k_.value for k_ in c.keywords if k_.arg == "newline"), None)
+                ok_o = isinstance(nl, ast.Constant) and nl.value == ""
+                ctx.ob(R, g.module.rel, f"{g.short} :: `{ast.unparse(c)[:70]}` does not translate line terminators", ok_o,
+                       "" if ok_o else "read_text / write_text translate line terminators", c.lineno)
+    ctx.floor(R + ":opens", k_open, 2)
     params = {a.arg for a in f.node.args.args[1:]}
     loops = [x for x in ast.walk(f.node) if isinstance(x, ast.For) and isinstance(x.iter, ast.Name) and x.iter.id in params
              and isinstance(x.target, ast.Name)
@@ -880,7 +921,17 @@ def rule_limit_installed(ctx, px):
         if f.outer is not None or not f.module.name.startswith("nunavut") or f.module.name == "nunavut._postprocessors":
             continue
         for c in ast.walk(f.node):
-            if not (isinstance(c, ast.Call) and ast.unparse(c.func).split(".")[-1] == "LimitEmptyLines" and c.args):
+            if not isinstance(c, ast.Call):
+                continue
+            n_arg = None
+            if ast.unparse(c.func).split(".")[-1] == "LimitEmptyLines" and c.args:
+                n_arg = c.args[0]
+            else:
+                # built through a generic helper that is handed the class and its constructor arguments: helper(..., LimitEmptyLines, n)
+                for i_, a_ in enumerate(c.args[:-1]):
+                    if isinstance(a_, (ast.Name, ast.Attribute)) and ast.unparse(a_).split(".")[-1] == "LimitEmptyLines" and not isinstance(c.args[i_ + 1], ast.Starred):
+                        n_arg = c.args[i_ + 1]
+            if n_arg is None:
                 continue
             k += 1
 
@@ -895,8 +946,8 @@ def rule_limit_installed(ctx, px):
             def canon(e_):
                 import copy
                 return ast.unparse(_GA().visit(copy.deepcopy(e_))).replace(" ", "")
-            arg = canon(pyfront.subst_locals(f.node, c.args[0]))
-            raw = canon(c.args[0])
+            arg = canon(pyfront.subst_locals(f.node, n_arg))
+            raw = canon(n_arg)
             gd = pyfront.guards_of(f.node, c) or ()
             bad = []
             for t_, pol in gd:
@@ -907,10 +958,10 @@ def rule_limit_installed(ctx, px):
                         bad.append(e)
                     if not p_ and e1 in (f"not{raw}", f"not{arg}", f"{raw}==0", f"{arg}==0"):
                         bad.append("not (" + e + ")")
-            ctx.ob(R, f.module.rel, f"{f.short} :: LimitEmptyLines({ast.unparse(c.args[0])[:40]}) is installed whenever a limit is given, 0 included", not bad,
+            ctx.ob(R, f.module.rel, f"{f.short} :: LimitEmptyLines({ast.unparse(n_arg)[:40]}) is installed whenever a limit is given, 0 included", not bad,
                    "" if not bad else f"constructed only under the truth value of the number ({bad}): with a limit of 0 no limiter is installed, so empty lines are not "
                    "removed at all (or a language default of 1 takes over)", c.lineno)
-    ctx.floor(R + ":installation", k, 3)
+    ctx.floor(R + ":installation", k, 2)      # the command line and the generator (which spells it once or per branch)
 
 
 def run(ctx):
